@@ -100,7 +100,11 @@ class PlanConverter:
                 if discrete_effect.is_positive:
                     add_effects.add(discrete_effect.untyped_representation)
                 else:
-                    delete_effects.add(discrete_effect.untyped_representation)
+                    # keeping the positive form of the deleted fact so that it is comparable with the
+                    # add effects and the preconditions of the other actions.
+                    delete_effects.add(
+                        discrete_effect.copy(is_negated=True).untyped_representation
+                    )
 
             for numeric_effect in effect.grounded_numeric_effects:
                 affected_variable = numeric_effect.root.children[
